@@ -49,9 +49,15 @@ func (s slot) convOK() bool {
 	return true
 }
 
+type brSlot struct {
+	g   *Graph
+	top bool
+}
+
 type gen struct {
 	r     *lib.Rng
 	tier  string
+	brs   []brSlot // graphs with a branch after their last stage
 	slots []slot
 	nextI int
 	convW int // weight of panics inside forwarded streams
@@ -100,7 +106,10 @@ func (g *gen) graph(depthLeft int, singleton bool, top bool) *Graph {
 			widths = append(widths, w)
 		}
 		gr.Dag = r.Chance(30, 100)
-		if !gr.Dag && r.Chance(15, 100) {
+		if r.Chance(20, 100) {
+			gr.WF, gr.Dag = true, false
+		}
+		if !gr.Dag && !gr.WF && r.Chance(15, 100) {
 			gr.Max = r.Range(1, n+1)
 		}
 	}
@@ -143,6 +152,13 @@ func (g *gen) graph(depthLeft int, singleton bool, top bool) *Graph {
 		}
 		gr.Stages = append(gr.Stages, st)
 	}
+	// an acyclic Pregel graph with single-node first and last stages may reach END through a branch
+	if !gr.Loop && !gr.Dag && !gr.WF && widths[0] == 1 && widths[len(widths)-1] == 1 && r.Chance(25, 100) {
+		gr.EndBr = true
+	}
+	if gr.Loop || gr.EndBr {
+		g.brs = append(g.brs, brSlot{g: gr, top: top})
+	}
 	return gr
 }
 
@@ -167,6 +183,9 @@ func (g *gen) id() int {
 
 func (engine) Generate(r *lib.Rng, tier string, i int) any {
 	g := &gen{r: r, tier: tier, convW: 10}
+	if r.Chance(12, 100) {
+		return g.fwdCase()
+	}
 	depth := g.weighted(25, 35, 25, 15)
 	c := &Case{Par: []string{"invoke", "stream", "collect", "transform"}[r.Intn(4)]}
 	c.G = g.graph(depth, true, true)
@@ -231,6 +250,18 @@ func (engine) Generate(r *lib.Rng, tier string, i int) any {
 			}
 		}
 	}
+	for _, b := range g.brs { // the branch conditions are user code too
+		if !r.Chance(15, 100) {
+			continue
+		}
+		// a panicking condition only below the top level: there the parent's executor contains it;
+		// at the top level it reaches the caller (not one of the places the property names)
+		if !b.top && r.Chance(30, 100) {
+			b.g.Br, b.g.BrID = "panic", g.id()
+		} else {
+			b.g.Br, b.g.BrErr = "fail", g.errSpec()
+		}
+	}
 	if r.Chance(7, 100) {
 		g.sharedItem(c.G)
 	}
@@ -259,7 +290,7 @@ func hasBeh(g *Graph, beh string) bool {
 // or inside sub-graphs).  The stream is copied for them, so all of them hold the same error value.
 func (g *gen) sharedItem(top *Graph) {
 	r := g.r
-	if top.Loop || len(top.Stages) < 2 || hasBeh(top, "cancel") || hasBeh(top, "convpanic") {
+	if top.Loop || top.EndBr || len(top.Stages) < 2 || hasBeh(top, "cancel") || hasBeh(top, "convpanic") {
 		return
 	}
 	s := r.Intn(len(top.Stages) - 1)
